@@ -340,7 +340,7 @@ def r6_pairing(repo, rep, cls):
                   % (le, norm(rbase)), f.loc(ln.ast))
   # zip(labels, rows): the same pairing without an index variable
   def role(node_, e_):
-    x_ = rd.expand(node_, e_, depth=1)[0]
+    x_ = rd.expand(node_, e_, depth=1)[0] if isinstance(e_, ast.Name) else e_
     t_ = norm(x_)
     m_ = re.fullmatch(r'(\w+)\.index(?:\.tolist\(\)|\.values|\.to_list\(\)|\.to_numpy\(\))?', t_)
     if m_:
